@@ -189,3 +189,16 @@ func ContentIDOfYAML(doc string) string {
 	}
 	return ContentID(rs.Rules)
 }
+
+// Classify tells what a document is for a provider, using heimdall's own parser: "valid" (with content id), "empty" or "invalid".
+func Classify(doc []byte) (kind, id string) {
+	rs, err := rconfig.ParseRules("application/yaml", strings.NewReader(string(doc)), false)
+	switch {
+	case err == nil && len(rs.Rules) > 0:
+		return "valid", ContentID(rs.Rules)
+	case errors.Is(err, rconfig.ErrEmptyRuleSet):
+		return "empty", ""
+	default:
+		return "invalid", ""
+	}
+}
